@@ -220,6 +220,64 @@ def _per_row_position_sets(ctx, m, W) -> bool:
     return True
 
 
+def _column_set_scan(ctx, m, W, colloop) -> bool:
+    """The column loop of the CSR scan walks a recorded SET of columns (`for col in sorted(S)`, S filled with `S.update(<columns>)` /
+    `S.add(col)` during assembly) instead of range(n_eqns).  Every column some writer of the Jacobian table stores into must then be a
+    column the scan visits: each accumulation site needs a record of its column(s) in the loops that enclose it.  A writer without one
+    (the ODE-modifier block, a thermal loop) leaves entries in the dense table that the sparse arrays never store.
+    -> True when this construction was recognised (obligations emitted)."""
+    from ..valueflow import as_map
+    fl = m.flow
+    it = simp(colloop.iter)
+    if it[0] == "call" and it[1] == ("global", "sorted") and len(it[2]) == 1 and not it[3]:
+        it = it[2][0]
+    if it[0] != "acc":
+        return False
+    S = it[1]
+    inits = [f for f in fl.facts if f.kind == "init" and f.target == S]
+    if len(inits) != 1 or simp(inits[0].value) not in (("call", ("global", "set"), (), ()), ("set", ())):
+        return False
+    recs = [f for f in fl.facts if f.target == S and f.kind in ("mutate", "append") and f.value is not None]
+    other = [f for f in fl.facts if f.target == S and f.kind not in ("init",) and f not in recs]
+    nsite = 0
+    for site in m.sites:
+        if site.array != "jacrhs" or site.kind not in ("loss", "gain", "mod", "heat", "cool"):
+            continue
+        d = m.decode_flat(simp(site.fact.index), tuple((simp(g), p) for g, p in site.fact.guards))
+        if d is None:
+            continue
+        nsite += 1
+        col = simp(d[1])
+        ids = [l.id for l in site.fact.loops]
+        covered = False
+        for r in recs:
+            rids = [l.id for l in r.loops]
+            if rids != ids[:len(rids)] or any((simp(g), p) not in [(simp(g2), p2) for g2, p2 in site.fact.guards] for g, p in r.guards):
+                continue
+            v = simp(r.value)
+            if r.op in ("add", "append") or r.kind == "append":
+                covered = covered or v == col
+            elif r.op == "update":
+                mm = as_map(v) if v[0] in ("comp",) else None
+                if mm is not None and not mm[3]:
+                    bv, body, base, _ = mm
+                    covered = covered or any(simp(subst_(body, {bv: ("elem", simp(base), lid)})) == col for lid in ids)
+                elif v[0] in ("list", "tuple", "set"):
+                    covered = covered or col in [simp(x) for x in v[1]]
+        ctx.check(covered, "R1", f"column record:{site.kind}@{site.fact.line}", (FILE, site.fact.line),
+                  f"the column of the {site.kind} term is recorded in `{S}`, the set of columns the CSR scan visits" if covered else
+                  f"the CSR scan only visits the columns recorded in `{S}`, and the {site.kind} site stores a term into the Jacobian table without recording its column there: an "
+                  "entry in a column that no other writer records is assigned by the dense / odeint Jacobian and marked in the pattern file, but is missing from the sparse "
+                  "(CSR) arrays and from NNZ",
+                  expected=f"{S}.add(<column>) / {S}.update(<columns>) in the loops of every writer of the table", found="no record of this site's column")
+    if not nsite:
+        return False
+    if not ctx.by("VIOLATION"):
+        ctx.unrec("R1", "csr-construction:from recorded columns", W, f"the CSR scan visits the recorded columns `{S}` only; beyond the pairing of writers and records the construction is not decided"
+                  + (f" ({len(other)} other uses of the set)" if other else ""))
+    return True
+
+
 def _r1(ctx, m):
     fl = m.flow
     W = (FILE, m.func.lineno)
@@ -292,6 +350,8 @@ def _r1(ctx, m):
                     and it1[2][0][1] == m.JAC and it1[2][0][2][0] == "slice":
                 form = "rowslice"
     if form is None and _per_row_position_sets(ctx, m, W):
+        return
+    if form is None and len(scan) == 2 and _column_set_scan(ctx, m, W, scan[1]):
         return
     if form is None:
         # restructured builder: the one obligation that is independent of the loop shape --
@@ -1038,6 +1098,11 @@ def _split_args(code, i):
 
 T = FILE
 MUTANTS = [
+    {"name": "csr-scan-over-recorded-columns-thermal-writers-not-recorded", "edits": [
+        {"file": T, "old": '        jacrhs = ["0.0"] * n_eqns * n_eqns\n', "new": '        jacrhs = ["0.0"] * n_eqns * n_eqns\n        usedcols = set()\n'},
+        {"file": T, "old": "            pspecidx = [species.index(p) for p in react.products]\n", "new": "            pspecidx = [species.index(p) for p in react.products]\n            usedcols.update(rspecidx)\n"},
+        {"file": T, "old": "                    didx = species.index(dspec)\n", "new": "                    didx = species.index(dspec)\n                    usedcols.add(didx)\n"},
+        {"file": T, "old": "            for col in range(n_eqns):\n                elem = jacrhs[row * n_eqns + col]\n", "new": "            for col in sorted(usedcols):\n                elem = jacrhs[row * n_eqns + col]\n"}], "rules": ["R1"]},
     {"name": "initjac-colvals-from-rows", "file": JAC, "old": "        {{ ode.jac.cols | map('string') | join(\", \") | stmwrap(80, 8) }}\n",
      "new": "        {{ ode.jac.rows | map('string') | join(\", \") | stmwrap(80, 8) }}\n", "rules": ["R3"]},
     {"name": "initjac-colvals-loop-over-a-slice", "file": JAC, "old": "        {{ ode.jac.cols | map('string') | join(\", \") | stmwrap(80, 8) }}\n",
